@@ -153,7 +153,7 @@ func genC10(t *rapid.T) c10Case {
 	kind, plan := drawPlan(t, sc.wf().SampleBytes)
 	sc.Plan = plan
 	c := c10Case{Stream: sc, PlanKind: kind}
-	if rapid.IntRange(0, 3).Draw(t, "stdsource") == 0 {
+	if os.Getenv("VERIF_TARGETS") == "" && rapid.IntRange(0, 3).Draw(t, "stdsource") == 0 {
 		c.Source = rapid.SampledFrom([]string{"bytes.Reader@offset", "os.File@offset"}).Draw(t, "source")
 		c.Seed = rapid.Uint64().Draw(t, "hdr")
 		c.PlanKind = "full"
